@@ -299,6 +299,20 @@ func Stage5Variants() [][]byte {
 		out = append(out, large("meta", Cat(vf(0, 0), kids)), large("meta", kids))
 		out = append(out, Box("udta", Box("meta", Cat(vf(0, 0), kids))), Box("udta", Cat(Box("meta", kids), Box("free", nil))))
 	}
+	// data (iTunes value atom: type indicator, locale, value), mime, the wvtt sample entry with its children
+	data := func(typ, loc uint32, v string) []byte { return Box("data", Cat(U32(typ), U32(loc), []byte(v))) }
+	out = append(out, data(1, 0, "Lavf58.29.100"), data(1, 0, ""), data(21, 0, "\x00\x07"), data(13, 0x656e, "\xff\xd8\xff"), data(0, 0, "x"),
+		Box("ilst", Cat(Box("\xa9too", data(1, 0, "Lavf")), Box("\xa9nam", data(1, 0, "title")), Box("\xa9ART", data(1, 0, "a")), Box("\xa9cpy", data(1, 0, "c")))),
+		Box("udta", Box("meta", Cat(vf(0, 0), h1, Box("ilst", Box("\xa9too", data(1, 0, "Lavf58.76.100")))))),
+		Box("udta", Box("meta", Cat(h1, Box("ilst", Box("\xa9too", data(1, 0, "enc")))))),
+		fb("mime", 0, 0, []byte("text/plain\x00")), fb("mime", 0, 0, []byte("image/png")), fb("mime", 1, 5, []byte("a\x00b\x00")), fb("mime", 0, 0, []byte("\x00")),
+	)
+	wv := func(r6 []byte, dri uint16, kids ...[]byte) []byte { return Box("wvtt", Cat(r6, U16(dri), Cat(kids...))) }
+	z6 := make([]byte, 6)
+	vttC, vlab, btrt := Box("vttC", []byte("WEBVTT")), Box("vlab", []byte("source")), Box("btrt", Cat(U32(1), U32(2), U32(3)))
+	out = append(out, wv(z6, 1), wv(z6, 1, vttC), wv(z6, 2, vttC, vlab, btrt), wv(z6, 1, btrt, vttC), wv([]byte{1, 2, 3, 4, 5, 6}, 1, vttC),
+		wv(z6, 1, vttC, Box("free", nil), Box("zzzz", []byte{7})),
+		Box("stsd", Cat(vf(0, 0), U32(1), wv(z6, 1, vttC, vlab))), large("wvtt", Cat(z6, U16(1), vttC)))
 	// an ISO meta whose bytes 4..8 of the payload are not "hdlr" although the first child is a hdlr; payloads below 8 bytes
 	out = append(out, Box("meta", vf(0, 0)), Box("meta", []byte{0, 0}), Box("meta", Cat(vf(0, 0), []byte{0, 0, 0})),
 		Box("meta", Cat([]byte("hdlr"), h1)), Box("meta", Cat(U32(33), []byte("hdlr"))))
